@@ -147,12 +147,6 @@ theorem touch_resetKey_aux (s : St) (k : Nat) (r : Rec) (hr : s.key k = some r) 
   · rw [T.same, key_newRec]; simp [core]
   · intro k'; rw [T.ctors, ctors_newRec]; simp
 
-theorem touch_resetTail (s0 s2 : St) (k g : Nat) : Touch k s2 (resetTail s0 s2 k g) := by
-  unfold resetTail
-  split
-  · exact touch_modG k s2 g _
-  · exact Touch.refl k s2
-
 theorem core_resetKey (s : St) (k k' : Nat) :
     core ((resetKey s k).1.key k') =
       if k' = k then (if (s.key k).isSome then some (s.ctors k + 1, none) else none) else core (s.key k') := by
@@ -161,8 +155,7 @@ theorem core_resetKey (s : St) (k k' : Nat) :
   | none => simp only []; split <;> simp_all [core]
   | some r =>
     simp only []
-    have h := touch_resetKey_aux s k r hr _ ((touch_startKey (newRec (cancelOpt s r.gen r.cancelOf) k r.gen) k false).trans
-      (touch_resetTail s _ k r.gen))
+    have h := touch_resetKey_aux s k r hr _ (touch_startKey (newRec (cancelOpt s r.gen r.cancelOf) k r.gen) k false)
     by_cases hk : k' = k
     · subst hk; simp [h.2.2.1]
     · simp [hk, h.2.1 k' hk]
@@ -175,8 +168,7 @@ theorem ctors_resetKey (s : St) (k k' : Nat) :
   | none => simp only []; split <;> simp_all
   | some r =>
     simp only []
-    have h := touch_resetKey_aux s k r hr _ ((touch_startKey (newRec (cancelOpt s r.gen r.cancelOf) k r.gen) k false).trans
-      (touch_resetTail s _ k r.gen))
+    have h := touch_resetKey_aux s k r hr _ (touch_startKey (newRec (cancelOpt s r.gen r.cancelOf) k r.gen) k false)
     by_cases hk : k' = k
     · subst hk; simp [h.2.2.2]
     · simp [hk, h.2.2.2]
@@ -186,8 +178,7 @@ theorem frame_resetKey (s : St) (k : Nat) : Frame s (resetKey s k).1 := by
   cases hr : s.key k with
   | none => exact Frame.refl s
   | some r =>
-    exact (touch_resetKey_aux s k r hr _ ((touch_startKey (newRec (cancelOpt s r.gen r.cancelOf) k r.gen) k false).trans
-      (touch_resetTail s _ k r.gen))).1
+    exact (touch_resetKey_aux s k r hr _ (touch_startKey (newRec (cancelOpt s r.gen r.cancelOf) k r.gen) k false)).1
 
 theorem abs_of_sigma (s s' : St) (hf : Frame s s') (m : Nat → Option (Nat × Option Nat)) (c : Nat → Nat)
     (hm : ∀ k, core (s'.key k) = m k) (hc : ∀ k, s'.ctors k = c k) :
